@@ -17,7 +17,7 @@ struct Swap2Grid : GridBase {
   typedef VecInfo<VecA> IA;
   typedef VecInfo<VecB> IB;
   typedef typename IA::elem E;
-  uint64_t n_cells = 0, n_possible = 0, n_impossible = 0, n_skipped = 0;
+  uint64_t n_cells = 0, n_possible = 0, n_impossible = 0, n_skipped = 0, n_handover = 0;
   bool wide = false;
 
   template <class V>
@@ -26,7 +26,7 @@ struct Swap2Grid : GridBase {
     std::vector<OpState> st;
     std::vector<uintmax_t> sizes;
     for (uintmax_t s = 0; s <= (wide ? 9u : 6u); ++s) sizes.push_back(s);
-    if (!I::kFixed || I::kN > 100) { sizes.push_back(250); sizes.push_back(255); sizes.push_back(300); }
+    if (!I::kFixed || I::kN > 100) { sizes.push_back(120); sizes.push_back(127); sizes.push_back(250); sizes.push_back(255); sizes.push_back(300); }
     for (uintmax_t s : sizes) {
       if (s > I::limit()) continue;
       OpState a = {s, 0};
@@ -174,6 +174,20 @@ struct Swap2Grid : GridBase {
         if (instrA && instrB && g_blk_live != own) violation("C13,C06", "swap2.block_ledger", fmt("%ld blocks outstanding, the two vectors own %ld", g_blk_live, own));
       }
       if (!canaries_ok(A.obj) || !canaries_ok(B.obj)) violation("C13", "swap2.write_outside_object", "bytes next to a container object were overwritten");
+      // C07 for swap2: two heap-backed vectors of the same allocator type whose capacities each fit the other's size_type exchange their buffers:
+      // element addresses are preserved and no element operation is performed
+      if (possible && a1.sane && b1.sane && !IA::kFixed && !IB::kFixed && std::is_same<typename IA::alloc, typename IB::alloc>::value && !a0.inl && a0.cap > 0 && !b0.inl && b0.cap > 0 &&
+          a0.cap <= static_cast<uintmax_t>(std::numeric_limits<typename IB::size_type>::max()) && b0.cap <= static_cast<uintmax_t>(std::numeric_limits<typename IA::size_type>::max())) {
+        ++n_handover;
+        if (a1.data != b0.data || b1.data != a0.data)
+          violation("C07,C13", "swap2.no_buffer_handover", fmt("two heap-backed vectors (capacities %ju and %ju fit both size types) did not exchange their buffers", a0.cap, b0.cap));
+        else if (EI<E>::kTracked) {
+          bool ev = a1.serials != b0.serials || b1.serials != a0.serials;
+          for (size_t i = 0; i < a1.serials.size() && !ev; ++i) ev = g_obj[a1.serials[i]].stamp == g_stamp;
+          for (size_t i = 0; i < b1.serials.size() && !ev; ++i) ev = g_obj[b1.serials[i]].stamp == g_stamp;
+          if (ev) violation("C07,C13", "swap2.handover_element_event", "element operations were performed although the buffers could simply be exchanged");
+        }
+      }
     }
     if (!g_cut) { MonScope mm; g_cur_sig += "+followup"; }
     if (!g_cut) truth_and_followup(A, "A");
@@ -206,6 +220,7 @@ int main(int argc, char **argv) {
   eng.counters["cells_exchange_possible"] = eng.n_possible;
   eng.counters["cells_exchange_impossible"] = eng.n_impossible;
   eng.counters["cells_state_not_formable"] = eng.n_skipped;
+  eng.counters["buffer_handovers_judged"] = eng.n_handover;
   eng.counters["states_A"] = total;
   eng.write_summary(VF_CFG_NAME, a.seed, a.from, g_cut ? h + 1 : h, a.to, true);
   if (g_cut) _exit(3);
